@@ -165,6 +165,21 @@ def c02_2(ctx):
         ctx.check("% self._p" in a, "modular-coordinate-test:%s" % a[:40], ctx.where(f),
                   "Curve.add compares coordinates with `%s`; points may carry unreduced coordinates (the constructor accepts y and y + p alike), so P = -Q / P = Q must be decided modulo p" % a, what="cmp:%s" % a, sample={"comparison": a})
     ctx.check(len(coord) >= 2, "two-case-tests", ctx.where(f), "Curve.add has %d coordinate comparisons, expected the x-equality and the y-opposite tests" % len(coord))
+    # which formula for which case: the tangent (its slope has the curve's `a`) is used only when the x coordinates agree, the
+    # chord only when they differ -- whatever the locals are called and however the differences are precomputed
+    x_eq = sorted(a for a in coord if "%s[0]" % p0 in a and "%s[0]" % p1 in a and "[1]" not in a and " == " in a)
+    pts = [e for e in w.exits if e.kind == "return" and e.value is not None and "inverse_mod(" in norm(w.sub(e.value))]
+    if not x_eq or not pts:
+        ctx.undecided("formula-by-case", ctx.where(f), "Curve.add: no test of the x coordinates' difference modulo p / no slope formula found in a form this rule reads")
+    else:
+        xe = gi.f_or(*[("op", a) for a in x_eq])
+        for e in pts:
+            t = norm(w.sub(e.value))
+            tangent = "self._a" in t
+            okf = sym.entails(e.cond, xe) if tangent else sym.entails(e.cond, gi.f_not(xe))
+            ctx.check(okf, "formula-by-case:%s" % ("tangent" if tangent else "chord"), ctx.where(f, e.node),
+                      "Curve.add uses the %s formula under `%s`, which does not imply that the x coordinates %s: for two different points with equal y (or the like) the wrong formula gives a value that is not P + Q"
+                      % ("tangent (doubling)" if tangent else "chord", str(e.cond)[:140], "agree" if tangent else "differ"), sample={"formula": "tangent" if tangent else "chord", "selected_when_x": "equal" if tangent else "different"})
     _refcheck(ctx, CURVE, "Curve.inverse_mod", "cv_inverse_mod", "inverse-mod")
 
 
@@ -381,6 +396,22 @@ def c02_6(ctx):
                   "Point.__neg__ computes p - y without first testing for the point at infinity (y is None): -infinity and P - infinity raise TypeError", sample={"function": n.qualname, "guards": ops})
     _refcheck(ctx, POINT, "Point.__sub__", "pt_sub", "subtraction")
     _refcheck(ctx, POINT, "Point.__add__", "pt_add", "addition")
+    # a short-cut that answers `infinity` for P - Q / P + Q has to look at BOTH coordinates: P and -P share their x
+    for nm in ("Point.__sub__", "Point.__add__"):
+        g = ctx.func(POINT, nm)
+        wg = sym.walk(ctx, g, int_names=INTS)
+        prm = g.params()
+        for e in wg.exits:
+            if e.kind != "return" or e.value is None or "infinity" not in norm(wg.sub(e.value)) or ".add(" in norm(wg.sub(e.value)):
+                continue
+            ops = [o for o in (gi.f_opaques(e.cond) if e.cond not in (True, False) else []) if isinstance(o, str)]
+            xs = [o for o in ops if "[0]" in o and len(prm) > 1 and prm[1] in o]
+            ys = [o for o in ops if "[1]" in o and len(prm) > 1 and prm[1] in o]
+            if xs and not ys:
+                ctx.bad("identity-shortcut-both-coordinates:%s" % nm, ctx.where(g, e.node), "%s answers the point at infinity under `%s` alone: equal x also holds for Q = -P, where P - Q is 2P (and P + P is not infinity either)" % (nm, xs[0][:80]))
+            elif xs or ys:
+                ctx.ok("identity-shortcut-both-coordinates:%s" % nm, sample={"function": nm, "guards": ops[:3]})
+        ctx.ok("identity-shortcuts:%s" % nm, nontrivial=False)
     _refcheck(ctx, POINT, "Point.__mul__", "pt_mul", "scalar-multiplication")
     # infinity is recognised before coordinates are unpacked in Curve.add
     a = ctx.func(CURVE, "Curve.add")
